@@ -225,14 +225,34 @@ def _contains_stat(v):
     return False
 
 
-def _flat(attrs, nested, prefix="", depth=0):
-    """the object's attributes, those of helper objects it is composed of included under dotted names"""
+class _Owner:
+    def __repr__(self):
+        return "<the owning device>"
+
+
+OWNER = _Owner()
+_ROOT = {}
+
+
+def _root_id(seen):
+    return _ROOT.get(id(seen))
+
+
+def _flat(attrs, nested, prefix="", depth=0, _seen=None):
+    """the object's attributes, those of helper objects it is composed of included under dotted names (a helper that points
+    back at its owner is not followed round the circle)"""
     out = {}
+    _seen = _seen if _seen is not None else set()
+    _seen.add(id(attrs))
     for k, v in attrs.items():
+        if isinstance(v, Instance) and id(v.attrs) in _seen:
+            if depth > 0 and id(v.attrs) == min(_seen, key=lambda i: 0 if i == _root_id(_seen) else 1):
+                out[prefix + k] = OWNER            # a helper's reference back to the object it belongs to
+            continue
         if isinstance(v, Instance) and isinstance(v.cls, ClassVal) and v.cls.module is not None and not v.cls.builtin and depth < 2 \
                 and not any(c.builtin and c.name != "object" for c in v.cls.mro()):
             nested[prefix + k] = v.cls
-            out.update(_flat(v.attrs, nested, prefix + k + ".", depth + 1))
+            out.update(_flat(v.attrs, nested, prefix + k + ".", depth + 1, _seen))
         else:
             out[prefix + k] = v
     return out
@@ -302,7 +322,9 @@ def scsi_layout(prog):
             si.remove()
         if not ps or not isinstance(ps[0].value, Instance):
             raise AnalysisError("anchor-missing", "SCSIDevice(device, readwrite, detect_replugged, buffering) cannot be constructed over the stand-in")
-        runs.append(_flat(dict(ps[0].value.attrs), nested))
+        seen_ = {id(ps[0].value.attrs)}
+        _ROOT[id(seen_)] = id(ps[0].value.attrs)
+        runs.append(_flat(dict(ps[0].value.attrs), nested, _seen=seen_))
     A, B = runs
     L = {"file_name": _one_attr(B, lambda v: v is path or v == path, "the device path", "SCSIDevice"),
          "handle": _one_attr(B, lambda v: isinstance(v, External) and v.name.startswith("file-handle"), "the open handle", "SCSIDevice"),
@@ -427,7 +449,7 @@ def make_scsi_device(prog):
     for k, v in parts.items():
         if k is None:
             continue
-        _put_path(dev, k, v, L["_nested"])        # (helper objects the device is composed of are built afresh per device)
+        _put_path(dev, k, dev if v is OWNER else v, L["_nested"])        # (helper objects the device is composed of are built afresh per device)
     return dev
 
 
